@@ -146,10 +146,16 @@ type vrfConsensus struct {
 	leader   peer.ID
 	trustAll bool
 	rmPeers  []peer.ID
+	events   []string // "pin", "unpin", "rmpeer", "clean", "shutdown" in call order
+	rmFails  bool
+	peersErr bool
 }
 
 func (c *vrfConsensus) SetClient(*rpc.Client)          {}
-func (c *vrfConsensus) Shutdown(context.Context) error { return nil }
+func (c *vrfConsensus) Shutdown(context.Context) error {
+	c.events = append(c.events, "shutdown")
+	return nil
+}
 func (c *vrfConsensus) Ready(context.Context) <-chan struct{} {
 	ch := make(chan struct{})
 	close(ch)
@@ -168,6 +174,7 @@ func (c *vrfConsensus) LogPin(ctx context.Context, p *api.Pin) error {
 		return errors.New("consensus: commit failed")
 	}
 	cp := vrfCopyPin(p)
+	c.events = append(c.events, "pin")
 	c.log = append(c.log, vrfLogEntry{pin: cp})
 	if i := c.find(p.Cid); i >= 0 {
 		c.pins[i] = cp
@@ -188,6 +195,10 @@ func (c *vrfConsensus) LogUnpin(ctx context.Context, p *api.Pin) error {
 }
 func (c *vrfConsensus) AddPeer(context.Context, peer.ID) error { return nil }
 func (c *vrfConsensus) RmPeer(ctx context.Context, p peer.ID) error {
+	c.events = append(c.events, "rmpeer")
+	if c.rmFails {
+		return errors.New("consensus: cannot remove peer")
+	}
 	c.rmPeers = append(c.rmPeers, p)
 	return nil
 }
@@ -199,8 +210,16 @@ func (c *vrfConsensus) State(context.Context) (state.ReadOnly, error) {
 }
 func (c *vrfConsensus) Leader(context.Context) (peer.ID, error)       { return c.leader, nil }
 func (c *vrfConsensus) WaitForSync(context.Context) error             { return nil }
-func (c *vrfConsensus) Clean(context.Context) error                   { return nil }
-func (c *vrfConsensus) Peers(context.Context) ([]peer.ID, error)      { return c.peers, nil }
+func (c *vrfConsensus) Clean(context.Context) error {
+	c.events = append(c.events, "clean")
+	return nil
+}
+func (c *vrfConsensus) Peers(context.Context) ([]peer.ID, error) {
+	if c.peersErr {
+		return nil, errors.New("consensus: peers unknown")
+	}
+	return c.peers, nil
+}
 func (c *vrfConsensus) IsTrustedPeer(context.Context, peer.ID) bool   { return c.trustAll }
 func (c *vrfConsensus) Trust(context.Context, peer.ID) error          { return nil }
 func (c *vrfConsensus) Distrust(context.Context, peer.ID) error       { return nil }
